@@ -443,10 +443,189 @@ def run_sample_ops(case):
     return res
 
 
+def run_tcf_words(case):
+    """term_correlation_function_right / _left (autoJW=True) on a product state with everything that receives the per-site
+    operators recorded from outside (instance attributes of the MPS object; the source is not touched):
+      get_site(i)        -> proxy of the site that records get_op(name) with the ABSOLUTE site index i and whose
+                            multiply_operators returns the list of names (so that _term_to_ops_list returns words)
+      _corr_ops_LP/_RP   -> record (words, first site) and contract 'Id' on the same sites instead
+      get_B(k, ..)       -> records the sites the loop over the gap contracts
+    For every entry of the result: the word contracted on every site of a window [lo, hi] (one more site on both sides)."""
+    from tenpy.networks.mps import MPS
+    ch = gen.Chain(case['sites'])
+    L = len(ch.sites)
+    psi = MPS.from_product_state(ch.sites, [0] * L, bc=case['bc'], unit_cell_width=L)
+    log = []
+    st = {'mute': 0}
+
+    class SiteProxy:
+        def __init__(self, site, i):
+            self._site, self._i = site, int(i)
+
+        def get_op(self, name):
+            if not st['mute']:
+                log.append(('op', self._i, str(name)))
+            return self._site.get_op(name)
+
+        def multiply_operators(self, ops):
+            return [str(o) for o in ops]
+
+        def __getattr__(self, a):
+            return getattr(self._site, a)
+
+    psi.get_site = lambda i: SiteProxy(psi.sites[psi._to_valid_site_index(i)], i)
+    orig_get_B = psi.get_B
+
+    def rec_get_B(i, *a, **kw):
+        if not st['mute']:
+            log.append(('B', int(i)))
+        return orig_get_B(i, *a, **kw)
+    psi.get_B = rec_get_B
+
+    def mk(kind, orig):
+        def f(operators, i0):
+            log.append((kind, [list(w) for w in operators], int(i0)))
+            st['mute'] += 1
+            try:
+                return orig(psi, ['Id'] * len(operators), i0)
+            finally:
+                st['mute'] -= 1
+        return f
+    psi._corr_ops_LP = mk('LP', MPS._corr_ops_LP)
+    psi._corr_ops_RP = mk('RP', MPS._corr_ops_RP)
+    res = []
+    for q in case['queries']:
+        del log[:]
+        tL = [(a, int(b)) for a, b in q['term_L']]
+        tR = [(a, int(b)) for a, b in q['term_R']]
+        right = q['variant'] == 'right'
+        try:
+            if right:
+                vals = psi.term_correlation_function_right(tL, tR, q['i_L'], q['j_R'])
+            else:
+                vals = psi.term_correlation_function_left(tL, tR, q['i_L'], q['j_R'])
+        except ValueError as e:
+            msg = str(e)
+            if msg.startswith('Odd total number of operators') or msg.startswith('i_L/j_R not such that'):
+                res.append({'ValueError': msg[:80]})
+            else:
+                res.append({'error': 'unexpected ValueError: ' + msg[:200]})
+            continue
+        except Exception as e:
+            res.append({'error': type(e).__name__ + ': ' + str(e)[:200]})
+            continue
+        # assemble the observation: fixed part (first LP resp. RP call), gap sites (accumulated), moving part
+        fixed, gap, entries, cur, err = None, {}, [], None, None
+        for ev in log:
+            if ev[0] == 'B':
+                if fixed is None:
+                    err = 'get_B before the fixed part was contracted'
+                    break
+                if cur is not None and cur[1] == 2:
+                    cur = None
+                if cur is None:
+                    if ev[1] in gap:
+                        err = 'site %d contracted twice in the gap' % ev[1]
+                        break
+                    gap[ev[1]] = []
+                    cur = [ev[1], 1]
+                elif cur[0] == ev[1]:
+                    cur[1] = 2
+                else:
+                    err = 'unexpected get_B sequence'
+                    break
+            elif ev[0] == 'op':
+                if cur is None or cur[0] != ev[1] or cur[1] != 1:
+                    err = 'get_op(%r) on site %d outside of a gap step' % (ev[2], ev[1])
+                    break
+                gap[cur[0]].append(ev[2])
+            else:
+                kind, words, i0 = ev
+                part = {i0 + t: list(w) for t, w in enumerate(words)}
+                if fixed is None:
+                    if kind != ('LP' if right else 'RP'):
+                        err = 'first contraction is %s' % kind
+                        break
+                    fixed = part
+                    continue
+                if kind != ('RP' if right else 'LP'):
+                    err = 'unexpected %s' % kind
+                    break
+                if cur is not None and cur[1] != 2:
+                    err = 'incomplete gap step'
+                    break
+                cur = None
+                lp, rp = (fixed, part) if right else (part, fixed)
+                if set(gap) & (set(lp) | set(rp)):
+                    err = 'gap site also contracted in CL / CR'
+                    break
+                merged = dict(rp)
+                merged.update(gap)
+                merged.update(lp)       # on a common site of CL and CR the stream compares the word of CL
+                lo, hi = min(merged) - 1, max(merged) + 1
+                if sorted(merged) != list(range(lo + 1, hi)):
+                    err = 'sites %s are not contiguous' % sorted(merged)
+                    break
+                entries.append({'lo': lo, 'words': [merged.get(k, []) for k in range(lo, hi + 1)],
+                                'overlap': bool(set(lp) & set(rp))})
+        if err is None and len(entries) != len(vals):
+            err = '%d contractions for %d values' % (len(entries), len(vals))
+        res.append({'error': err} if err else {'entries': entries})
+    return res
+
+
+def run_sample_loop(case):
+    """sample_measurements(ops=None) on an MPS given by exact tensors (entries unit * 2^-k): returns the tensors the loop
+    starts from / attaches (get_theta(first, 1), get_B(i)), the outcome, every value npc.norm returned during the call and
+    the returned weight.  npc.norm is wrapped from outside for the duration of the call; the source is not touched."""
+    import tenpy.linalg.np_conserved as npc
+    import tenpy.networks.mps as mps_mod
+    from tenpy.networks.mps import MPS
+    from tenpy.networks.site import SpinSite
+    L = case['L']
+    site_of = {}
+    Bs = []
+    for b in case['Bs']:
+        arr = np.array([[[complex(x[0], x[1]) for x in row] for row in mat] for mat in b], dtype=complex)
+        Bs.append(npc.Array.from_ndarray_trivial(arr, labels=['vL', 'p', 'vR'], dtype=complex))
+    SVs = [np.array(s, dtype=float) for s in case['SVs']]
+    sites = [site_of.setdefault(len(b[0]), SpinSite(S=(len(b[0]) - 1) / 2., conserve='None')) for b in case['Bs']]
+    psi = MPS(sites, Bs, SVs, bc=case['bc'], form='B', unit_cell_width=L)
+
+    def nest(a):
+        a = a.itranspose(['vL', 'p', 'vR']).to_ndarray()
+        return [[[[float(z.real), float(z.imag)] for z in row] for row in mat] for mat in a]
+    got_B = [nest(psi.get_B(i).copy()) for i in range(L)]
+    res = []
+    for q in case['queries']:
+        first, last = q['first'], q['last']
+        th0 = nest(psi.get_theta(first, n=1).replace_label('p0', 'p'))
+        norms = []
+        orig = npc.norm
+        assert mps_mod.npc is npc
+
+        def rec_norm(a, *args, **kw):
+            v = orig(a, *args, **kw)
+            norms.append(float(v))
+            return v
+        npc.norm = rec_norm
+        try:
+            sig, w = psi.sample_measurements(first, last, ops=None, rng=np.random.default_rng(q['seed']),
+                                             complex_amplitude=q['complex_amplitude'])
+        except ValueError as e:
+            res.append({'error': 'ValueError: ' + str(e)[:200]})
+            continue
+        finally:
+            npc.norm = orig
+        w = complex(w)
+        res.append({'theta0': th0, 'sigmas': [int(s) for s in sig], 'norms': norms, 'weight': [float(w.real), float(w.imag)]})
+    return {'B': got_B, 'results': res}
+
+
 def main():
     payload = json.load(open(sys.argv[1]))
     f = {'state': run_state, 'overlap': run_overlap, 'ops_list': run_ops_list, 'window': run_window,
-         'sample_ops': run_sample_ops}[payload['kind']]
+         'sample_ops': run_sample_ops, 'tcf_words': run_tcf_words, 'sample_loop': run_sample_loop}[payload['kind']]
     res = []
     for c in payload['cases']:
         try:
